@@ -366,6 +366,7 @@ func runC13(c *Ctx) {
 	checkSummaryInputIndexIsTheDebits(c, "C13-R1")
 	checkMissingLabelIsNotAnError(c, "C13-R3")
 	checkRangeCallbackOnlyAfterSuccessfulRead(c, "C13-R1")
+	checkLatestRecordWalksPastSeek(c, "C13-R3")
 	// a debit exists for every input that spends a wallet credit — whatever the credit's amount
 	checkMustPassOnSuccess(c, "C13-R2", "debit-always-written", c.P.Func("wtxmgr", "", "putDebit"), "Put",
 		"putDebit can report success without writing the debit record (skipped on some condition, e.g. a zero amount): the spending transaction lists no debit for that input, and the rollback, which finds the spent credit through the debit, never marks it unspent again")
